@@ -14,8 +14,8 @@
 //!   rejI:CODE            the I-th entry was rejected by the builder (the builder is used further)
 //!   seal:ok | seal:CODE
 //!   B: bytes:HEX         the sealed block's bytes
-//!   S: meta:FIRST:LAST:SMALLEST:BIGGEST:SETSUMHEX:FILESIZE  nblocks:N  (metadata(); N = index entries seen
-//!      by a forward walk is not observable, so N is omitted) ; file:HEX is printed when env C10_FILE=1
+//!   S: meta:FIRST:LAST:SMALLEST:BIGGEST:SETSUMHEX:FILESIZE  then f:FILEHEX (the whole file when it
+//!      is at most 4096 bytes, else f:-)
 //!   M: files:K then per file  meta:... and the entries enumerated forward  [ e e e ]
 //!   then key_value() after every cursor call:  - | KEYHEX@TS=VALHEX | KEYHEX@TS~ ; a call returning
 //!   Err prints ERR:CODE (the cursor is used further); G prints get:VALHEX | get:~ | get:- | ERR:CODE
@@ -221,9 +221,13 @@ fn run_case(line: &str, dir: &PathBuf, nfile: &mut usize, out: &Mutex<Vec<String
                 }
                 Err(e) => out.lock().unwrap().push(format!("meta:ERR:{}", code(&e))),
             }
-            if std::env::var("C10_FILE").is_ok() {
-                let bytes = std::fs::read(&path).expect("read sst");
-                out.lock().unwrap().push(format!("file:{}", hex(&bytes)));
+            // the bytes of the file (small files only): the check parses the frames and compares
+            // the filter block with the model's
+            let bytes = std::fs::read(&path).expect("read sst");
+            if bytes.len() <= 4096 {
+                out.lock().unwrap().push(format!("f:{}", hex(&bytes)));
+            } else {
+                out.lock().unwrap().push("f:-".to_string());
             }
             let mut cur = table.cursor();
             let t2 = table.clone();
